@@ -29,27 +29,35 @@ const (
 	ruleType = "function/argument-type"
 )
 
+type rdiag struct {
+	off  int // line offset inside the statement
+	rule string
+}
+
 type rstmt struct {
-	text  string
-	rules []string // diagnostics it produces, all on its own (single) line
+	lines []string
+	diags []rdiag
 }
 
 var rstmts = []rstmt{
-	{`set req.http.A = std.itoa(0, 1, 2);`, []string{ruleArgs}},
-	{`set req.http.B = std.itoa(req.http.bar);`, []string{ruleType}},
-	{`set req.http.C = std.itoa(0, 1, 2) std.itoa(req.http.bar);`, []string{ruleArgs, ruleType}},
-	{`set req.http.D = "ok";`, nil},
-}
-
-type rpair struct {
-	rules []string // nil: bare
+	{[]string{`set req.http.A = std.itoa(0, 1, 2);`}, []rdiag{{0, ruleArgs}}},
+	{[]string{`set req.http.B = std.itoa(req.http.bar);`}, []rdiag{{0, ruleType}}},
+	{[]string{`set req.http.C = std.itoa(0, 1, 2) std.itoa(req.http.bar);`}, []rdiag{{0, ruleArgs}, {0, ruleType}}},
+	{[]string{`set req.http.D = "ok";`}, nil},
+	// statements that span several lines, diagnostics on the first, the second and the last line
+	{[]string{`set req.http.E = std.itoa(0, 1, 2)`, `    std.itoa(req.http.bar);`}, []rdiag{{0, ruleArgs}, {1, ruleType}}},
+	{[]string{`set req.http.F = "a"`, `    "b"`, `    std.itoa(0, 1, 2);`}, []rdiag{{2, ruleArgs}}},
+	{[]string{`set req.http.G =`, `    std.itoa(req.http.bar)`, `    "c";`}, []rdiag{{1, ruleType}}},
 }
 
 // item of the generated body: a statement, a directive or a block boundary
 type ritem struct {
-	kind  string // stmt | start | end | open-if | close-if
-	stmt  int
-	rules []string
+	kind    string // stmt | start | end | open-if | close-if | include
+	stmt    int
+	rules   []string
+	own     string   // directive on the statement itself: "" | next-line | trailing
+	ownList []string // nil: bare
+	blank   bool     // blank line between the next-line comment and the statement
 }
 
 func listText(r *rand.Rand, rules []string) string {
@@ -62,6 +70,9 @@ func listText(r *rand.Rand, rules []string) string {
 
 func dirText(r *rand.Rand, marker int, kind string, rules []string) string {
 	body := "falco-ignore-" + kind + listText(r, rules)
+	if kind == "" {
+		body = "falco-ignore" + listText(r, rules)
+	}
 	switch marker {
 	case 0:
 		return "// " + body
@@ -71,45 +82,60 @@ func dirText(r *rand.Rand, marker int, kind string, rules []string) string {
 	return "/* " + body + " */"
 }
 
+func pickList(r *rand.Rand) []string {
+	switch r.Intn(4) {
+	case 1:
+		return []string{ruleArgs}
+	case 2:
+		return []string{ruleType}
+	case 3:
+		if r.Intn(2) == 0 {
+			return []string{ruleType, ruleArgs}
+		}
+		return []string{ruleArgs, ruleType}
+	}
+	return nil
+}
+
+func genStmt(r *rand.Rand) ritem {
+	it := ritem{kind: "stmt", stmt: r.Intn(len(rstmts))}
+	switch r.Intn(8) {
+	case 0:
+		it.own, it.ownList, it.blank = "next-line", pickList(r), r.Intn(3) == 0
+	case 1:
+		it.own, it.ownList = "trailing", pickList(r)
+	}
+	return it
+}
+
 // genBody produces a properly nested sequence: Body := (stmt | pair(Body) | if(Body))*
-func genBody(r *rand.Rand, depth, budget int, out *[]ritem) {
+// A listed outermost pair is sometimes closed by a bare end (docs: it re-enables all rules).
+func genBody(r *rand.Rand, depth, pairDepth, budget int, out *[]ritem) {
 	n := 1 + r.Intn(4)
 	for i := 0; i < n && len(*out) < budget; i++ {
 		switch k := r.Intn(10); {
 		case k < 5 || depth >= 3:
-			*out = append(*out, ritem{kind: "stmt", stmt: r.Intn(len(rstmts))})
+			*out = append(*out, genStmt(r))
 		case k < 9:
-			var rules []string
-			switch r.Intn(4) {
-			case 0: // bare
-			case 1:
-				rules = []string{ruleArgs}
-			case 2:
-				rules = []string{ruleType}
-			case 3:
-				rules = []string{ruleArgs, ruleType}
-				if r.Intn(2) == 0 {
-					rules = []string{ruleType, ruleArgs}
-				}
-			}
+			rules := pickList(r)
 			*out = append(*out, ritem{kind: "start", rules: rules})
-			genBody(r, depth+1, budget, out)
-			*out = append(*out, ritem{kind: "stmt", stmt: r.Intn(len(rstmts))}) // the end comment needs a statement (or the closing brace) to hang on
-			// the end comment is placed in front of the statement just appended: swap
-			last := len(*out) - 1
-			st := (*out)[last]
-			(*out)[last] = ritem{kind: "end", rules: rules}
-			*out = append(*out, st)
+			genBody(r, depth+1, pairDepth+1, budget, out)
+			endRules := rules
+			if pairDepth == 0 && rules != nil && r.Intn(4) == 0 {
+				endRules = nil
+			}
+			// the end comment needs a statement to hang on
+			*out = append(*out, ritem{kind: "end", rules: endRules}, genStmt(r))
 		default:
 			*out = append(*out, ritem{kind: "open-if"})
-			genBody(r, depth+1, budget, out)
-			*out = append(*out, ritem{kind: "stmt", stmt: r.Intn(len(rstmts))})
-			*out = append(*out, ritem{kind: "close-if"})
+			genBody(r, depth+1, pairDepth, budget, out)
+			*out = append(*out, genStmt(r), ritem{kind: "close-if"})
 		}
 	}
 }
 
 type expectation struct {
+	file string
 	line int
 	rule string
 	want string // suppressed | reported | either
@@ -122,78 +148,132 @@ func runRanges(oc *fw.Outcome, rc rcase) {
 	}
 }
 
-func oneRanges(oc *fw.Outcome, r *rand.Rand) {
-	var items []ritem
-	genBody(r, 0, 24, &items)
-	marker := r.Intn(3)
-	mixed := r.Intn(4) == 0
-	var lines []string
-	lines = append(lines, "sub vcl_recv {", "#FASTLY RECV")
-	type open struct {
-		rules []string
+type open struct {
+	rules []string
+}
+
+func names(o open, rule string) bool {
+	for _, x := range o.rules {
+		if x == rule {
+			return true
+		}
 	}
+	return false
+}
+
+// rworld renders items into the lines of one file and records the expectations. The stack of
+// open pairs belongs to the file (an included module starts with an empty one).
+type rworld struct {
+	r        *rand.Rand
+	marker   int
+	mixed    bool
+	exps     []expectation
+	nStart   int
+	maxOpen  int
+	feats    map[string]bool
+	modLines []string
+}
+
+func (w *rworld) render(file string, items []ritem, indent string, lines *[]string, outer []open, module []ritem) {
 	var stack []open
 	ambAll := false              // after an inner bare end: nothing is judged until the stack is empty
-	ambRule := map[string]bool{} // rule -> ambiguous until the enclosing listed pair naming it ends
-	var exps []expectation
-	nStart := 0
-	indent := "  "
-	names := func(o open, rule string) bool {
-		for _, x := range o.rules {
-			if x == rule {
-				return true
+	ambRule := map[string]bool{} // rule -> ambiguous while an enclosing listed pair names it too
+	covered := func(rule string, own *ritem) string {
+		want := "reported"
+		for _, o := range append(append([]open{}, outer...), stack...) {
+			if o.rules == nil || names(o, rule) {
+				want = "suppressed"
 			}
 		}
-		return false
+		if ambAll || ambRule[rule] {
+			want = "either"
+		}
+		if own != nil && own.own != "" && (own.ownList == nil || names(open{own.ownList}, rule)) {
+			want = "suppressed"
+		}
+		return want
 	}
-	for _, it := range items {
-		m := marker
-		if mixed {
-			m = r.Intn(3)
+	for idx := range items {
+		it := items[idx]
+		m := w.marker
+		if w.mixed {
+			m = w.r.Intn(3)
 		}
 		switch it.kind {
 		case "stmt":
 			st := rstmts[it.stmt]
-			lines = append(lines, indent+st.text)
-			for _, rule := range st.rules {
-				want := "reported"
-				for _, o := range stack {
-					if o.rules == nil || names(o, rule) {
-						want = "suppressed"
+			if it.own == "next-line" {
+				*lines = append(*lines, indent+dirText(w.r, m, "next-line", it.ownList))
+				w.feats["own:next-line"] = true
+				if it.blank {
+					*lines = append(*lines, "")
+					w.feats["own:next-line+blank"] = true
+				}
+			}
+			first := len(*lines) + 1
+			for li, l := range st.lines {
+				if li == len(st.lines)-1 && it.own == "trailing" {
+					l += " " + dirText(w.r, m, "", it.ownList)
+					w.feats["own:trailing"] = true
+					if len(st.lines) > 1 {
+						w.feats["own:trailing-on-multi-line"] = true
 					}
 				}
-				if ambAll || ambRule[rule] {
-					want = "either"
-				}
-				exps = append(exps, expectation{len(lines), rule, want})
+				*lines = append(*lines, indent+l)
 			}
+			for _, d := range st.diags {
+				w.exps = append(w.exps, expectation{file, first + d.off, d.rule, covered(d.rule, &it)})
+			}
+		case "include":
+			*lines = append(*lines, indent+`include "mod";`)
+			var mlines []string
+			mw := *w
+			mw.exps = nil
+			// the module's own ranges start from nothing; what is open here covers the whole module
+			mw.render("mod", module, "", &mlines, append(append([]open{}, outer...), stack...), nil)
+			if ambAll || len(ambRule) > 0 {
+				for i := range mw.exps {
+					mw.exps[i].want = "either"
+				}
+			}
+			w.exps = append(w.exps, mw.exps...)
+			w.nStart += mw.nStart - w.nStart
+			w.modLines = mlines
 		case "start":
-			nStart++
+			w.nStart++
 			stack = append(stack, open{it.rules})
-			lines = append(lines, indent+dirText(r, m, "start", it.rules))
+			if len(stack) > w.maxOpen {
+				w.maxOpen = len(stack)
+			}
+			*lines = append(*lines, indent+dirText(w.r, m, "start", it.rules))
 		case "end":
 			top := stack[len(stack)-1]
 			stack = stack[:len(stack)-1]
-			lines = append(lines, indent+dirText(r, m, "end", it.rules))
-			if len(stack) == 0 {
+			*lines = append(*lines, indent+dirText(w.r, m, "end", it.rules))
+			if top.rules != nil && it.rules == nil {
+				w.feats["listed-start-closed-by-bare-end"] = true
+			}
+			// what is still open around this end: the file's own pairs and, in a module, the pairs
+			// which are open around the include statement
+			enclosing := append(append([]open{}, outer...), stack...)
+			if len(enclosing) == 0 {
 				ambAll = false
 				ambRule = map[string]bool{}
 				break
 			}
-			if top.rules == nil {
+			if it.rules == nil {
 				ambAll = true
 			}
-			for _, rule := range top.rules {
-				for _, o := range stack {
+			for _, rule := range it.rules {
+				for _, o := range enclosing {
 					if o.rules != nil && names(o, rule) {
 						ambRule[rule] = true
 					}
 				}
 			}
-			// a rule stops being ambiguous when no enclosing listed pair names it any more
 			for rule := range ambRule {
 				still := false
-				for _, o := range stack {
+				for _, o := range enclosing {
 					if o.rules != nil && names(o, rule) {
 						still = true
 					}
@@ -203,39 +283,102 @@ func oneRanges(oc *fw.Outcome, r *rand.Rand) {
 				}
 			}
 		case "open-if":
-			lines = append(lines, indent+"if (req.http.Cond) {")
+			*lines = append(*lines, indent+"if (req.http.Cond) {")
 			indent += "  "
 		case "close-if":
 			indent = indent[:len(indent)-2]
-			lines = append(lines, indent+"}")
+			*lines = append(*lines, indent+"}")
 		}
 	}
+	// a range left open at the end of a module must not reach the including file (the caller goes on
+	// with its own stack); in the main file every pair is closed
+}
+
+func oneRanges(oc *fw.Outcome, r *rand.Rand) {
+	var items []ritem
+	genBody(r, 0, 0, 24, &items)
+	w := &rworld{r: r, marker: r.Intn(3), mixed: r.Intn(4) == 0, feats: map[string]bool{}}
+	// optionally a module included from the subroutine body (at block depth 0) which has ranges of its
+	// own, one of them possibly left open at its end
+	var module []ritem
+	if r.Intn(3) == 0 {
+		genBody(r, 1, 0, 10, &module)
+		if r.Intn(3) == 0 {
+			module = append(module, ritem{kind: "start", rules: pickList(r)}, genStmt(r))
+			w.feats["module:range-left-open"] = true
+		}
+		// a position at block depth 0
+		var cands []int
+		depth := 0
+		for i, it := range items {
+			switch it.kind {
+			case "open-if":
+				depth++
+			case "close-if":
+				depth--
+			}
+			if depth == 0 && it.kind != "end" {
+				cands = append(cands, i+1)
+			}
+		}
+		// never between an end comment and the statement it hangs on
+		var ok []int
+		for _, c := range cands {
+			if c < len(items) && items[c-1].kind == "end" {
+				continue
+			}
+			if c > 0 && c <= len(items) && items[c-1].kind == "start" {
+				continue
+			}
+			ok = append(ok, c)
+		}
+		if len(ok) > 0 {
+			at := ok[r.Intn(len(ok))]
+			items = append(items[:at], append([]ritem{{kind: "include"}}, items[at:]...)...)
+			w.feats["module"] = true
+		} else {
+			module = nil
+		}
+	}
+	var lines []string
+	lines = append(lines, "sub vcl_recv {", "#FASTLY RECV")
+	w.render("main", items, "  ", &lines, nil, module)
 	lines = append(lines, "  return(lookup);", "}")
 	// a later subroutine: nothing of the ranges above (all closed) may reach it
 	lines = append(lines, "sub vcl_deliver {", "#FASTLY DELIVER", "  set resp.http.A = std.itoa(0, 1, 2);", "}")
-	exps = append(exps, expectation{len(lines) - 1, ruleArgs, "reported"})
+	w.exps = append(w.exps, expectation{"main", len(lines) - 1, ruleArgs, "reported"})
 	src := strings.Join(lines, "\n") + "\n"
+	mods := map[string]string{}
+	if w.modLines != nil {
+		mods["mod"] = strings.Join(w.modLines, "\n") + "\n"
+	}
 	fw.JournalS(src)
 	oc.Evals++
 	var res *lintutil.Result
 	panicked, msg, st := fw.Guard(func() {
-		res = lintutil.Lint(src, &lintutil.MapResolver{Main: src, Budget: 10})
+		res = lintutil.Lint(src, &lintutil.MapResolver{Main: src, Modules: mods, Budget: 10})
 	})
+	detail := map[string]any{"vcl": src, "mod": mods["mod"]}
 	if panicked {
-		oc.Violate(fw.PanicKey(st), "the linter panicked on nested ignore ranges: "+msg, map[string]any{"vcl": src})
+		oc.Violate(fw.PanicKey(st), "the linter panicked on nested ignore ranges: "+msg, detail)
 		return
 	}
 	if res.ParseErr != nil || res.Fatal != "" {
-		oc.Inconc = append(oc.Inconc, fmt.Sprintf("ranges: generated program does not lint: %v %s\n%s", res.ParseErr, res.Fatal, src))
+		oc.Inconc = append(oc.Inconc, fmt.Sprintf("ranges: generated program does not lint: %v %s\n%s\n-- mod:\n%s", res.ParseErr, res.Fatal, src, mods["mod"]))
 		return
 	}
 	got := map[string]int{}
 	for _, d := range res.Diags {
-		got[fmt.Sprintf("%d|%s", d.Line, d.Rule)]++
+		f := "main"
+		if strings.Contains(d.File, "mod") {
+			f = "mod"
+		}
+		got[fmt.Sprintf("%s|%d|%s", f, d.Line, d.Rule)]++
 	}
-	judged, nested := 0, false
-	for _, e := range exps {
-		k := fmt.Sprintf("%d|%s", e.line, e.rule)
+	judged := 0
+	sh := shape(items, w)
+	for _, e := range w.exps {
+		k := fmt.Sprintf("%s|%d|%s", e.file, e.line, e.rule)
 		n := got[k]
 		delete(got, k)
 		switch e.want {
@@ -244,12 +387,12 @@ func oneRanges(oc *fw.Outcome, r *rand.Rand) {
 			continue
 		case "reported":
 			if n != 1 {
-				oc.Violate("ranges/leak/"+shape(items), fmt.Sprintf("line %d: the %s diagnostic lies outside every open range that covers its rule but was reported %d times", e.line, e.rule, n), map[string]any{"vcl": src, "line": e.line, "rule": e.rule})
+				oc.Violate("ranges/leak/"+sh, fmt.Sprintf("%s line %d: the %s diagnostic lies outside every directive that covers its rule but was reported %d times", e.file, e.line, e.rule, n), detail)
 				return
 			}
 		case "suppressed":
 			if n != 0 {
-				oc.Violate("ranges/under/"+shape(items), fmt.Sprintf("line %d: the %s diagnostic lies inside an open range that covers its rule but was reported", e.line, e.rule), map[string]any{"vcl": src, "line": e.line, "rule": e.rule})
+				oc.Violate("ranges/under/"+sh, fmt.Sprintf("%s line %d: the %s diagnostic lies inside a directive that covers its rule but was reported", e.file, e.line, e.rule), detail)
 				return
 			}
 		}
@@ -261,73 +404,52 @@ func oneRanges(oc *fw.Outcome, r *rand.Rand) {
 			ks = append(ks, k)
 		}
 		sort.Strings(ks)
-		oc.Violate("ranges/new/"+shape(items), "diagnostics that the plain statements do not produce: "+strings.Join(ks, " "), map[string]any{"vcl": src})
+		oc.Violate("ranges/new/"+sh, "diagnostics that the plain statements do not produce: "+strings.Join(ks, " "), detail)
 		return
 	}
-	depth, maxDepth := 0, 0
-	for _, it := range items {
-		if it.kind == "start" {
-			depth++
-			if depth > maxDepth {
-				maxDepth = depth
-			}
-		} else if it.kind == "end" {
-			depth--
-		}
+	oc.Tag(fmt.Sprintf("ranges:max-open-pairs=%d", w.maxOpen))
+	for f := range w.feats {
+		oc.Tag("ranges:feature:" + f)
 	}
-	nested = maxDepth >= 2
-	oc.Tag(fmt.Sprintf("ranges:max-open-pairs=%d", maxDepth))
-	if nStart >= 1 && judged >= 2 {
-		oc.NonTrivialS(src)
+	if (w.nStart >= 1 || len(w.feats) > 0) && judged >= 2 {
+		oc.NonTrivialS(src + mods["mod"])
 	}
-	_ = nested
 }
 
-// shape names the nesting of the first two levels of pairs (bare / listed), for the finding key
-func shape(items []ritem) string {
-	var sb strings.Builder
-	depth := 0
-	for _, it := range items {
-		switch it.kind {
-		case "start":
-			depth++
-			if depth <= 2 && sb.Len() < 12 {
-				if it.rules == nil {
-					sb.WriteString("B")
-				} else {
-					sb.WriteString("L")
-				}
-			}
-		case "end":
-			depth--
-		}
-	}
-	seen := map[string]bool{}
-	s := sb.String()
-	switch {
-	case strings.Contains(s, "B") && strings.Contains(s, "L"):
-		s = "bare+listed"
-	case strings.Contains(s, "B"):
-		s = "bare"
-	default:
-		s = "listed"
-	}
-	_ = seen
-	maxDepth, d := 0, 0
+// shape names the features of the program for the finding key
+func shape(items []ritem, w *rworld) string {
+	bare, listed := false, false
 	for _, it := range items {
 		if it.kind == "start" {
-			d++
-			if d > maxDepth {
-				maxDepth = d
+			if it.rules == nil {
+				bare = true
+			} else {
+				listed = true
 			}
-		} else if it.kind == "end" {
-			d--
 		}
 	}
-	if maxDepth >= 2 {
-		return "nested/" + s
+	s := "no-range"
+	switch {
+	case bare && listed:
+		s = "bare+listed"
+	case bare:
+		s = "bare"
+	case listed:
+		s = "listed"
 	}
-	return "sequence/" + s
+	pre := "sequence/"
+	if w.maxOpen >= 2 {
+		pre = "nested/"
+	}
+	if w.feats["module"] {
+		pre = "module/" + pre
+	}
+	for _, f := range []string{"own:trailing-on-multi-line", "own:next-line+blank", "listed-start-closed-by-bare-end"} {
+		if w.feats[f] {
+			s += "+" + strings.TrimPrefix(f, "own:")
+		}
+	}
+	return pre + s
 }
 
 // ---------------------------------------------------------------------------------------------
